@@ -121,6 +121,10 @@ var exprFaults = []exprFault{
 			// both bounds are valid integers but the span does not fit
 			return hast.Call("random_range", hast.Neg(n(r.Pick("4611686018427387904", "9223372036854775807", "9000000000000000000"))), n(r.Pick("4611686018427387904", "9223372036854775807", "9000000000000000000")))
 		}
+		if r.Bool() {
+			// reversed AND more than 2^63 apart (the difference wraps around to a positive span)
+			return hast.Call("random_range", n(r.Pick("6000000000000000000", "9223372036854775807", "4611686018427387905")), hast.Neg(n(r.Pick("6000000000000000000", "9223372036854775807", "4611686018427387905"))))
+		}
 		return hast.Call("random_range", hast.Neg(n("9223372036854775808")), n(r.Pick("0", "1", "100")))
 	}},
 	{"null-literal", func(r *core.Rand) *hast.Expr {
